@@ -27,6 +27,7 @@ RULE = (
     "non-trivial = the term has a constructor (depth >= 2) and at least one accepted and one "
     "rejected value were exercised"
 )
+RULE += " Rounds 10-13: several different Literal annotations in one term; wide unions of 4-6 (11) alternatives; different annotations that read the same (Literal[1, 2] / Literal['1', '2'], same-named states / enums); re-entrant construction."
 ASSUMPTIONS = [
     "three-valued oracle: int for float, bool for int, str for Sequence[str], list for tuple[...], "
     "set for frozenset[...], equal-but-differently-typed Literal values are unspecified and only "
